@@ -545,6 +545,26 @@ class Connection(ExportImport):
         self._added_during_commit = None
 
     def _store_objects(self, writer, transaction):
+        try:
+            self._store_objects_of(writer, transaction)
+        except:  # noqa: E722 do not use bare 'except'
+            # New objects that were given an oid and a jar while one of
+            # their referrers was serialized, but were not stored before
+            # the failure, are in neither _creating nor _added: nothing
+            # else would disown them, and a later commit would take them
+            # for stored objects and write dangling references to them.
+            for obj in writer._stack:
+                oid = obj._p_oid
+                if (oid is not None and obj._p_jar is self
+                        and oid not in self._creating
+                        and oid not in self._added
+                        and getattr(obj, '_p_serial', z64) == z64
+                        and self._cache.get(oid) is None):
+                    del obj._p_jar
+                    del obj._p_oid
+            raise
+
+    def _store_objects_of(self, writer, transaction):
         for obj in writer:
             oid = obj._p_oid
             serial = getattr(obj, "_p_serial", z64)
@@ -565,6 +585,14 @@ class Connection(ExportImport):
                 implicitly_adding = self._added.pop(oid, None) is None
 
                 self._creating[oid] = implicitly_adding
+                # _invalidate_creating() finds objects through the cache:
+                # make sure it finds this one even if serializing or
+                # storing it fails.
+                if self._cache.get(oid) is None:
+                    try:
+                        self._cache[oid] = obj
+                    except:  # noqa: E722 do not use bare 'except'
+                        pass  # wrapped object; see below
 
             else:
                 self._modified.append(oid)
